@@ -29,7 +29,9 @@ RULE = ("A case is a ring description (hosts with dc/rack/tokens, partitioner), 
 ASSUMPTIONS = [
     "spec/placement.py transcribes SimpleStrategy/NetworkTopologyStrategy.calculateNaturalEndpoints of Cassandra 2.x and 4.x; both are run on every "
     "case and must agree as sets (a disagreement is a harness error, never a violation)",
-    "transient replication 'N/T' designates N natural replicas (T of them transient), as ReplicationFactor.fromString does in Cassandra 4",
+    "with transient replication 'N/T' the driver deliberately reports the FULL replicas only (ReplicationFactor.full_replicas, like the Java driver): the "
+    "reference is Cassandra 4's placement with its full/transient mark -- per DC for NetworkTopologyStrategy, overall for SimpleStrategy, the last T replicas "
+    "chosen are transient -- restricted to the full ones",
     "every host has a non-empty datacenter and rack and tokens are distinct across hosts (what system.local/system.peers deliver)",
     "key tokens come from spec/murmur3.py (C08)",
 ]
@@ -151,10 +153,12 @@ def interpret(case, ctx):
         sub = "C26.simple" if short == "SimpleStrategy" else "C26.nts"
         rff = _rf_features(opts)
         try:
-            want = [ref.natural_endpoints_at(ring.ref_ring, ring.topology, cls, opts, i, pre) for i in range(n)]
+            nat = [ref.natural_replicas_at(ring.ref_ring, ring.topology, cls, opts, i, pre) for i in range(n)]
         except ref.ReferenceDisagreement as e:
             raise HarnessError("reference self-check failed: %s" % e)
-        why = _nontrivial(ring, short, opts, want)
+        # token-aware routing targets the FULL replicas: without transient replication that is every natural replica
+        want = [[ep for ep, is_full in r if is_full] for r in nat]
+        why = _nontrivial(ring, short, opts, [[ep for ep, _f in r] for r in nat])
         if why:
             nontrivial = True
             ctx.label(why)
@@ -214,8 +218,9 @@ def interpret(case, ctx):
                     k = tuple([sub + ".set", lost] + f + (["list-repeats-host"] if repeats else ["list-distinct"]))
                     if k not in seen_fail:
                         seen_fail.add(k)
-                        ctx.fail(list(k), "%s %r %s=%r (ring index %d): driver replicas %r, Cassandra places %r; ring=%r topology=%r" % (
-                            short, opts, how, shown, idx, got_idx, sorted(exp), ring.ref_ring, ring.topology))
+                        ctx.fail(list(k), "%s %r %s=%r (ring index %d): driver replicas %r, Cassandra's %s replicas %r (placement order, full?) %r; ring=%r topology=%r" % (
+                            short, opts, how, shown, idx, got_idx, "full" if rff == "transient-rf" else "natural", sorted(exp), nat[idx],
+                            ring.ref_ring, ring.topology))
         ctx.label(short, "%s:%s" % (short, rff))
     ctx.label("partitioner=" + part, "hosts=%d" % len(ring.hosts), "tokens=%d" % n, *sorted(pos_classes))
     if n > len(set(ep for _t, ep in ring.ref_ring)):
